@@ -279,6 +279,20 @@ def run_case(case, ctx):
                   lambda: "%s with indices=%r and MRTS='auto': value %r, but the profile of the "
                           "same call averages to %r" % (meas, sel, float(Vs), float(e)))
 
+    # the same trains asked first with OTHER keyword values (results ignored): what the
+    # matrix call below returns must depend on its own keywords only
+    if fn["matrix"] is not None:
+        span = case["t1"] - case["t0"]
+        for key in fn["keys"]:
+            alt = dict(kw)
+            if key == "max_tau":
+                alt["max_tau"] = None if kw.get("max_tau") else span / 8
+            elif key == "MRTS":
+                alt["MRTS"] = 0 if kw.get("MRTS") else span / 4
+            else:
+                alt[key] = not kw.get(key, False)
+            ctx.call("matrix_other_keywords_first", fn["matrix"], sts, **alt)
+
     # matrices ('auto' with `indices` is not asserted: pooling is unspecified)
     for ind in ((None,) if auto else (None, case["indices"])):
         sel = list(range(N)) if ind is None else list(ind)
